@@ -87,6 +87,7 @@ const (
 
 // Task is one simulated routine.
 type Task struct {
+	condWait bool
 	ID       int
 	Parent   int
 	state    state
@@ -200,6 +201,7 @@ type Sched struct {
 	tseq      int
 	chans     map[uintptr]*chanState
 	mus       map[*sync.Mutex]*muState
+	conds     map[*sync.Cond][]*Task
 	rws       map[*sync.RWMutex]*muState
 	doneCh    chan Outcome
 	ended     bool
@@ -252,6 +254,7 @@ func New(cfg Config, ch Chooser) *Sched {
 		ch:     ch,
 		chans:  map[uintptr]*chanState{},
 		mus:    map[*sync.Mutex]*muState{},
+		conds:  map[*sync.Cond][]*Task{},
 		rws:    map[*sync.RWMutex]*muState{},
 		doneCh: make(chan Outcome, 1),
 		pairs:  map[string]int{},
@@ -884,6 +887,38 @@ func (s *Sched) Unlock(l sync.Locker) {
 		s.ready(t)
 	}
 	st.waiters = st.waiters[:0]
+}
+
+// CondWait implements (*sync.Cond).Wait: release the lock, wait for a signal
+// (no spurious wake-ups, as in the Go runtime), take the lock again.
+func (s *Sched) CondWait(c *sync.Cond, site string) {
+	if s.killing {
+		runtime.Goexit()
+	}
+	s.Unlock(c.L)
+	t := s.cur
+	s.conds[c] = append(s.conds[c], t)
+	t.condWait = true
+	for t.condWait {
+		s.block("cond wait (" + site + ")")
+	}
+	s.Lock(c.L, site)
+}
+
+// CondSignal implements Signal (the longest waiter, as the runtime's ticket
+// order does) and Broadcast.
+func (s *Sched) CondSignal(c *sync.Cond, all bool) {
+	q := s.conds[c]
+	n := 1
+	if all {
+		n = len(q)
+	}
+	for ; n > 0 && len(q) > 0; n-- {
+		q[0].condWait = false
+		s.ready(q[0])
+		q = q[1:]
+	}
+	s.conds[c] = q
 }
 
 // MutexHeld reports whether the simulator considers m held, and by whom.
